@@ -1,7 +1,12 @@
+import JSight.EnumC2
+import JSight.EnumCExamples
 import JSight.TreeLen
 import JSight.ByteLemmas
 import JSight.EnumEvents
 import JSight.SchemaLen
+import JSight.SchemaLenExamples
+import JSight.SchemaLenTokEof
+import JSight.SchemaLenAnnShortcut
 /-!
 # C14 — Len reports exactly where an embedded JSON document ends
 
@@ -17,7 +22,17 @@ a plain-JSON schema, alone in the input or followed by foreign text, is the offs
 every value tree and layout. "Foreign" is every class except blanks, `/` and `#` (which may start an annotation
 or a comment that belongs to the schema); a byte glued directly to a number must not be able to continue it
 (`adjOk`, exact: after `0` only `.`/`e`/`E` are excluded, after an integer also digits, after a fraction digits
-and `e`/`E`). Annotated schemas: validated against the code (`c14-len`), not proved.
+and `e`/`E`).
+Extension (root type shortcuts, inline annotations, user comments):
+`C14_schema_len_shortcut` — root `@name` / `@a | @b` (token grammar of scanner.go's shortcut states): `Len` = offset just
+after the last name byte. `C14_schema_len_annotated_scalar` — a scalar root followed on its line by `// note` or
+`// {rules} [- note]`: `Len` COUNTS the annotation (up to its last non-blank byte). `C14_schema_len_annotated` — the
+general form: the schema text is a list of tokens (`Len.Tok`: blanks, line breaks, `#` line comments, inline
+annotations, scalars, keys, brackets, separators) that the token-level scanner `Len.trun` accepts (a description of the
+places where each token may stand, incl. the `allowAnnotation` flag and the closure installed behind a note); the
+byte-level model follows it (`Len.sim_run`), and `Len` is the text length without trailing blanks (`Len.rtrimLen`).
+Multi-line annotations, `###` block comments, key shortcuts and shortcuts inside containers: validated only
+(`schema-diff`, `c14-len`, `c14-model`).
 -/
 namespace Props.C14
 open JsonScan
@@ -101,5 +116,143 @@ theorem C14_schema_len_embedded (v : SchemaScan.Tree) (hv : v.Valid) (ws0 w : Li
     (bs : List UInt8) (hbs : bs.map SchemaScan.classify = ws0 ++ (v.render ++ (w ++ x :: rest))) :
     SchemaScan.length bs = .ok (ws0.length + v.render.length) :=
   SchemaScan.C14_schema_len_embedded v hv ws0 w h0 hw x rest hx hadj bs hbs
+
+/-- `Len()` of a schema whose root is a type shortcut `@name` or `@a | @b | …` -/
+theorem C14_schema_len_shortcut (sc : SchemaScan.Len.Shortcut) (hv : sc.Valid) (ws0 w tail : List SchemaScan.Cls)
+    (h0 : SchemaScan.IsWs ws0) (hw : SchemaScan.IsWs w) (ht : SchemaScan.Len.scTailOk w tail = true)
+    (bs : List UInt8) (hbs : bs.map SchemaScan.classify = ws0 ++ (sc.render ++ (w ++ tail))) :
+    SchemaScan.length bs = .ok (ws0.length + sc.render.length) :=
+  SchemaScan.C14_schema_len_shortcut sc hv ws0 w tail h0 hw ht bs hbs
+
+/-- non-vacuity: `  @cat | @dog-1 ⏎ GET /x` → 15 -/
+example : SchemaScan.length (SchemaScan.Len.Ex.b "  @cat | @dog-1 \n GET /x") = .ok 15 := SchemaScan.Len.Ex.sc1_len
+
+/-- `Len()` of a top-level scalar with an inline annotation on its line: the annotation is part of the schema -/
+theorem C14_schema_len_annotated_scalar (ws0 tok s1 : List SchemaScan.Cls) (b : SchemaScan.Len.InlBody)
+    (w : List SchemaScan.Cls) (x : SchemaScan.Cls) (rest : List SchemaScan.Cls)
+    (h0 : SchemaScan.IsWs ws0) (hs : SchemaScan.IsScalar tok) (h1 : SchemaScan.Len.IsSpTabs s1) (hb : b.Valid)
+    (hw : SchemaScan.IsWs w) (hx : x.isForeign = true) (bs : List UInt8)
+    (hbs : bs.map SchemaScan.classify
+      = ws0 ++ (tok ++ (s1 ++ (.slash :: .slash :: (b.render ++ (.nl :: (w ++ x :: rest))))))) :
+    SchemaScan.length bs
+      = .ok (SchemaScan.Len.rtrimLen (ws0 ++ (tok ++ (s1 ++ (.slash :: .slash :: b.render))))) :=
+  SchemaScan.C14_schema_len_annotated_scalar ws0 tok s1 b w x rest h0 hs h1 hb hw hx bs hbs
+
+/-- non-vacuity: `12 // {min: 0} - note⏎⏎GET` → 21 -/
+example : SchemaScan.length (SchemaScan.Len.Ex.b "12 // {min: 0} - note\n\nGET") = .ok 21 := SchemaScan.Len.Ex.ann1_len
+
+/-- the same for a top-level type shortcut: `@cat | @dog // {…} - note` -/
+theorem C14_schema_len_annotated_shortcut (ws0 : List SchemaScan.Cls) (sc : SchemaScan.Len.Shortcut)
+    (s1 : List SchemaScan.Cls) (b : SchemaScan.Len.InlBody) (w : List SchemaScan.Cls) (x : SchemaScan.Cls)
+    (rest : List SchemaScan.Cls) (h0 : SchemaScan.IsWs ws0) (hv : sc.Valid) (h1 : SchemaScan.Len.IsSpTabs s1)
+    (hb : b.Valid) (hw : SchemaScan.IsWs w) (hx : x.isForeign = true) (bs : List UInt8)
+    (hbs : bs.map SchemaScan.classify
+      = ws0 ++ (sc.render ++ (s1 ++ (.slash :: .slash :: (b.render ++ (.nl :: (w ++ x :: rest))))))) :
+    SchemaScan.length bs
+      = .ok (SchemaScan.Len.rtrimLen (ws0 ++ (sc.render ++ (s1 ++ (.slash :: .slash :: b.render))))) :=
+  SchemaScan.C14_schema_len_annotated_shortcut ws0 sc s1 b w x rest h0 hv h1 hb hw hx bs hbs
+
+/-- non-vacuity: `@cat | @dog-1 // {min: 0} - note⏎GET` -/
+example := C14_schema_len_annotated_shortcut [] SchemaScan.Len.Ex.sc1 [.sp] SchemaScan.Len.Ex.body1 [] .nameo [.uE, .nameo]
+  (by simp [SchemaScan.IsWs]) SchemaScan.Len.Ex.sc1_valid (by simp [SchemaScan.Len.IsSpTabs, SchemaScan.Cls.isSpTab])
+  SchemaScan.Len.Ex.body1_valid (by simp [SchemaScan.IsWs]) rfl
+  (SchemaScan.Len.Ex.b "@cat | @dog-1 // {min: 0} - note\nGET") (by decide)
+
+/-- `rtrimLen` is the length without trailing blanks: behind a last non-blank byte `d` only layout is dropped -/
+theorem rtrimLen_spec (pre : List SchemaScan.Cls) (d : SchemaScan.Cls) (w : List SchemaScan.Cls)
+    (hd : d.isBlank = false) (hw : SchemaScan.IsWs w) : SchemaScan.Len.rtrimLen (pre ++ [d] ++ w) = pre.length + 1 :=
+  SchemaScan.Len.rtrimLen_snoc pre d w hd hw
+
+/-- `Len()` of a schema with inline annotations and `#` comments wherever the scanner accepts them (token list
+accepted by `Len.trun` from the initial state and ending behind the complete top-level value), followed by a foreign byte -/
+theorem C14_schema_len_annotated (toks : List SchemaScan.Len.Tok) (hw : ∀ t ∈ toks, t.WF) (c' : SchemaScan.Len.TC)
+    (evs : List SchemaScan.Ev) (h : SchemaScan.Len.trun SchemaScan.Len.TC.init toks = some (c', evs))
+    (x : SchemaScan.Cls) (rest : List SchemaScan.Cls) (hx : x.isForeign = true) (hend : SchemaScan.Len.EndsAt c' x)
+    (bs : List UInt8) (hbs : bs.map SchemaScan.classify = SchemaScan.Len.renderToks toks ++ x :: rest) :
+    SchemaScan.length bs = .ok (SchemaScan.Len.rtrimLen (SchemaScan.Len.renderToks toks)) :=
+  SchemaScan.C14_schema_len_tokens toks hw c' evs h x rest hx hend bs hbs
+
+/-- the same when the schema fills the input: `Len` = the text length without trailing blanks -/
+theorem C14_schema_len_annotated_whole (toks : List SchemaScan.Len.Tok) (hw : ∀ t ∈ toks, t.WF) (c' : SchemaScan.Len.TC)
+    (evs : List SchemaScan.Ev) (h : SchemaScan.Len.trun SchemaScan.Len.TC.init toks = some (c', evs))
+    (hend : SchemaScan.Len.Complete c') (bs : List UInt8)
+    (hbs : bs.map SchemaScan.classify = SchemaScan.Len.renderToks toks) :
+    SchemaScan.length bs = .ok (SchemaScan.Len.rtrimLen (SchemaScan.Len.renderToks toks)) :=
+  SchemaScan.C14_schema_len_tokens_whole toks hw c' evs h hend bs hbs
+
+/-- non-vacuity: `{⏎"a": 1 // x⏎} #x⏎` alone -/
+example := C14_schema_len_annotated_whole SchemaScan.Len.Ex.toks1 SchemaScan.Len.Ex.toks1_wf SchemaScan.Len.Ex.res1.1
+  SchemaScan.Len.Ex.res1.2 SchemaScan.Len.Ex.run1 (Or.inl ⟨rfl, rfl⟩) (SchemaScan.Len.Ex.b "{\n\"a\": 1 // x\n} #x\n")
+  (by decide)
+
+/-- non-vacuity: `{⏎"a": 1 // x⏎} #x⏎GET` → 18 (annotation with a note inside the object, comment behind it) -/
+example : SchemaScan.length (SchemaScan.Len.Ex.b "{\n\"a\": 1 // x\n} #x\nGET") = .ok 18 := SchemaScan.Len.Ex.toks1_len
+
+/-- **the prefix of length `Len` is accepted with the same meaning**: `S` (a token list ending right behind its
+top-level value) followed by layout `w`, a foreign byte and anything: `Len = |S|`, `S` alone scans (ordinary mode) into
+the events of the token list plus the end of a top-level scalar, and those are the events `Length()` reads inside the
+longer text before `end-top` (`SchemaScan.lengthEvents`), followed only by the `newLine` events of `w` -/
+theorem C14_schema_prefix_same_events (toks : List SchemaScan.Len.Tok) (hw : ∀ t ∈ toks, t.WF) (st : SchemaScan.St)
+    (lit : Bool) (b : Nat) (CS : List SchemaScan.Ctx) (cx : SchemaScan.Ctx) (al : Bool) (evs : List SchemaScan.Ev)
+    (hpv : SchemaScan.PV st = true)
+    (h : SchemaScan.Len.trun SchemaScan.Len.TC.init toks
+      = some (⟨st, false, SchemaScan.pendOf lit b, (SchemaScan.Len.renderToks toks).length, CS, cx, al⟩, evs))
+    (w : List SchemaScan.Cls) (hws : SchemaScan.IsWs w) (x : SchemaScan.Cls) (rest : List SchemaScan.Cls)
+    (hx : x.isForeign = true) (hadj : w = [] → SchemaScan.adjOk st x = true) (bs : List UInt8)
+    (hbs : bs.map SchemaScan.classify = SchemaScan.Len.renderToks toks ++ (w ++ x :: rest)) :
+    SchemaScan.length bs = .ok (SchemaScan.Len.renderToks toks).length ∧
+    SchemaScan.scanAll (bs.take (SchemaScan.Len.renderToks toks).length)
+      = .ok (evs ++ SchemaScan.rootClosers lit b ((SchemaScan.Len.renderToks toks).length - 1)) ∧
+    SchemaScan.lengthEvents bs
+      = .ok (evs ++ SchemaScan.rootClosers lit b ((SchemaScan.Len.renderToks toks).length - 1)
+          ++ SchemaScan.nlEvs (SchemaScan.Len.renderToks toks).length w) :=
+  SchemaScan.C14_schema_prefix_same_events toks hw st lit b CS cx al evs hpv h w hws x rest hx hadj bs hbs
+
+/-- non-vacuity: `[1, {"a": "x"}] ⏎GET` -/
+example := C14_schema_prefix_same_events SchemaScan.Len.Ex.toks2 SchemaScan.Len.Ex.toks2_wf .endValue false 0 []
+  { ty := .initial } false SchemaScan.Len.Ex.res2.2 rfl SchemaScan.Len.Ex.run2 [.sp, .nl]
+  (by simp [SchemaScan.IsWs, SchemaScan.Cls.isBlank, SchemaScan.Cls.isSpace, SchemaScan.Cls.isNewLine]) .nameo
+  [.uE, .nameo] rfl (fun h => by cases h) (SchemaScan.Len.Ex.b "[1, {\"a\": \"x\"}] \nGET") (by decide)
+
+/-- **`Len` errs on an incomplete schema**: the input ends behind a token list (accepted from the initial state) that
+leaves an object, an array, a key, a member value or an array item open: error 303 at the last byte -/
+theorem C14_schema_len_error (toks : List SchemaScan.Len.Tok) (hw : ∀ t ∈ toks, t.WF) (c' : SchemaScan.Len.TC)
+    (evs : List SchemaScan.Ev) (h : SchemaScan.Len.trun SchemaScan.Len.TC.init toks = some (c', evs))
+    (hopen : SchemaScan.Len.eofErrK c'.K = true) (bs : List UInt8)
+    (hbs : bs.map SchemaScan.classify = SchemaScan.Len.renderToks toks) :
+    SchemaScan.length bs = .error (.unexpectedEOF (bs.length - 1)) :=
+  SchemaScan.C14_schema_len_error_tokens toks hw c' evs h hopen bs hbs
+
+/-- … and on an open string: where a value may start, `"` and string characters up to the end of input -/
+theorem C14_schema_len_error_string (toks : List SchemaScan.Len.Tok) (hw : ∀ t ∈ toks, t.WF) (c' : SchemaScan.Len.TC)
+    (evs : List SchemaScan.Ev) (h : SchemaScan.Len.trun SchemaScan.Len.TC.init toks = some (c', evs))
+    (ctx : SchemaScan.VCtx) (hctx : SchemaScan.Len.vctxOf c'.st = some ctx) (body : List SchemaScan.Cls)
+    (hb : SchemaScan.StrBody body) (bs : List UInt8)
+    (hbs : bs.map SchemaScan.classify = SchemaScan.Len.renderToks toks ++ (.quote :: body)) :
+    SchemaScan.length bs = .error (.unexpectedEOF (bs.length - 1)) :=
+  SchemaScan.C14_schema_len_error_string toks hw c' evs h ctx hctx body hb bs hbs
+
+/-- non-vacuity: `[1, {"a":` and `[1, {"a":"x\n` -/
+example := SchemaScan.Len.Ex.toks3_err
+example := SchemaScan.Len.Ex.toks3_str_err
+
+end Props.C14
+
+/-! ### enum rules with comments (from the C18 development `JSight/EnumC*.lean`) -/
+namespace Props.C14
+open EnumScan
+
+/-- Enum rule text `pre [ lay item , … ] lay` whose layouts may hold `// …` and `/* … */` comments wherever the enum scanner
+accepts them: `Len` is the length of the text without its trailing blanks — a comment behind the closing bracket is INSIDE
+`Len` (it belongs to the rule). -/
+theorem C14_enum_len_with_comments (pre : List UInt8) (ws0 post : LayB) (items : List ItemC)
+    (hpre : IsWsB pre) (hws0 : ws0.Valid) (hpost : post.Valid) (hv : GValidItemsC items)
+    (hnd : (items.map itemKeyC).Nodup) :
+    length (renderEnumC pre ws0 items post) = .ok (rtrimB (renderEnumC pre ws0 items post)).length :=
+  enumC_length pre ws0 post items hpre hws0 hpost hv hnd
+
+-- non-vacuity: ` [ // one⏎ 1 /* a*b */ , "a" //⏎ , true ] /* end */ `
+example : length (renderEnumC xPre xWs0 xItems xPost) = .ok (rtrimB (renderEnumC xPre xWs0 xItems xPost)).length :=
+  C14_enum_len_with_comments xPre xWs0 xPost xItems xPre_ws xWs0_valid xPost_valid xItems_valid (by decide)
 
 end Props.C14
